@@ -324,18 +324,19 @@ impl Reference {
 // ------------------------------------------------- in-memory TLS handshake --
 
 #[derive(Debug)]
-struct Capture(Mutex<Option<Vec<u8>>>, Arc<rustls::crypto::CryptoProvider>);
+struct Capture(Mutex<Option<Vec<u8>>>, Arc<rustls::crypto::CryptoProvider>, Mutex<Vec<Vec<u8>>>);
 
 impl rustls::client::danger::ServerCertVerifier for Capture {
     fn verify_server_cert(
         &self,
         end_entity: &rustls::pki_types::CertificateDer<'_>,
-        _i: &[rustls::pki_types::CertificateDer<'_>],
+        inter: &[rustls::pki_types::CertificateDer<'_>],
         _n: &rustls::pki_types::ServerName<'_>,
         _o: &[u8],
         _t: rustls::pki_types::UnixTime,
     ) -> Result<rustls::client::danger::ServerCertVerified, rustls::Error> {
         *self.0.lock().unwrap_or_else(|p| p.into_inner()) = Some(end_entity.as_ref().to_vec());
+        *self.2.lock().unwrap_or_else(|p| p.into_inner()) = inter.iter().map(|c| c.as_ref().to_vec()).collect();
         Ok(rustls::client::danger::ServerCertVerified::assertion())
     }
     fn verify_tls12_signature(
@@ -367,14 +368,22 @@ enum Shake {
 /// a complete rustls client/server handshake over memory buffers; the server
 /// side uses the real `MutexCertificateResolver` as `ResolvesServerCert`.
 fn handshake(server_cfg: &Arc<rustls::ServerConfig>, sni: &str) -> Option<Shake> {
+    handshake_opts(server_cfg, sni, true).map(|x| x.0)
+}
+
+/// `send_sni = false`: the ClientHello carries no server_name extension; also returns the
+/// intermediates the server presented after the leaf
+fn handshake_opts(server_cfg: &Arc<rustls::ServerConfig>, sni: &str, send_sni: bool) -> Option<(Shake, Vec<Vec<u8>>)> {
     let provider = Arc::new(rustls::crypto::ring::default_provider());
-    let cap = Arc::new(Capture(Mutex::new(None), provider.clone()));
+    let cap = Arc::new(Capture(Mutex::new(None), provider.clone(), Mutex::new(vec![])));
     let ccfg = rustls::ClientConfig::builder_with_provider(provider)
         .with_safe_default_protocol_versions()
         .ok()?
         .dangerous()
         .with_custom_certificate_verifier(cap.clone())
         .with_no_client_auth();
+    let mut ccfg = ccfg;
+    ccfg.enable_sni = send_sni;
     let name = rustls::pki_types::ServerName::try_from(sni.to_string()).ok()?;
     let mut client = rustls::ClientConnection::new(Arc::new(ccfg), name).ok()?;
     let mut server = rustls::ServerConnection::new(server_cfg.clone()).ok()?;
@@ -416,13 +425,14 @@ fn handshake(server_cfg: &Arc<rustls::ServerConfig>, sni: &str) -> Option<Shake>
             }
         }
         if let Some(d) = cap.0.lock().unwrap_or_else(|p| p.into_inner()).clone() {
-            return Some(Shake::Cert(d));
+            let inter = cap.2.lock().unwrap_or_else(|p| p.into_inner()).clone();
+            return Some((Shake::Cert(d), inter));
         }
         if err.is_some() || !progressed {
             break;
         }
     }
-    Some(Shake::NoCert(err.unwrap_or_else(|| "stalled".into())))
+    Some((Shake::NoCert(err.unwrap_or_else(|| "stalled".into())), vec![]))
 }
 
 fn handshakeable(n: &[u8]) -> bool {
@@ -872,6 +882,18 @@ impl Area for Tls {
                 format!("rm 0:U"),
                 format!("rm 1:M"),
             ]),
+            // certificate_chain: intermediates in order, the leaf not repeated, multi-PEM entries, bad blocks; no SNI
+            s(vec![
+                format!("new {www}"),
+                "chain 0 1,2".to_string(),
+                "chain 1 1,2,1,3".to_string(),
+                "chain 2 2".to_string(),
+                "chain 3 g,4,g".to_string(),
+                "chain 4 5,x".to_string(),
+                "chain 5 _".to_string(),
+                format!("add 0 100 {www}"),
+                "nosni".to_string(),
+            ]),
             // duplicate name inside one certificate, replace by a certificate that drops a name
             s(vec![
                 format!("new {www} {apex} {test}"),
@@ -1015,8 +1037,28 @@ impl Area for Tls {
                 };
                 ops.push(format!("{} {olds} {id} {exp} {} -", if split { "replsplit" } else { "repl" }, names_field(&names)));
                 reference.replace(old, id, &names, exp);
-            } else if r < 85 {
-                ops.push(if rng.chance(1, 2) { "addbad".into() } else { format!("replbad {}", fresh(rng)) });
+            } else if r < 86 {
+                match rng.below(5) {
+                    0 => ops.push("addbad".into()),
+                    1 => ops.push(format!("replbad {}", fresh(rng))),
+                    2 => ops.push("nosni".into()),
+                    _ => {
+                        // a certificate with certificate_chain entries: intermediates, the leaf again
+                        // (fullchain.pem), text without markers, sometimes a block that does not parse
+                        let leaf = fresh(rng);
+                        let n = rng.below(5);
+                        let mut links: Vec<String> = vec![];
+                        for _ in 0..n {
+                            links.push(match rng.below(12) {
+                                0 => "x".into(),
+                                1 => "g".into(),
+                                2 | 3 => leaf.to_string(),
+                                _ => rng.below(nassets).to_string(),
+                            });
+                        }
+                        ops.push(format!("chain {leaf} {}", if links.is_empty() { "_".into() } else { links.join(",") }));
+                    }
+                }
             } else {
                 // the routing gate on a connection whose SNI is a grid name
                 if grid.is_empty() {
@@ -1101,6 +1143,107 @@ impl Tls {
                 note_names(&mut seen, &grid);
                 let d: Vec<String> = grid.iter().map(|n| im.probe(n).0).collect();
                 r.out.push(format!("new | {}", d.join(" ")));
+                continue;
+            }
+            if w[0] == "chain" && w.len() >= 3 {
+                r.tags.push("op:chain".into());
+                let leaf: usize = w[1].parse().unwrap_or(0);
+                let toks: Vec<&str> = if w[2] == "_" { vec![] } else { w[2].split(',').collect() };
+                let Some(leaf_asset) = a.certs.get(leaf) else {
+                    r.out.push("bad-op".into());
+                    continue;
+                };
+                // entries: consecutive blocks share one entry string when the leaf id is odd
+                // (a multi-PEM entry, split by split_certificate_chain), else one entry per block
+                let block = |t: &str| -> String {
+                    match t {
+                        "x" => "-----BEGIN CERTIFICATE-----\n!!!not base64!!!\n-----END CERTIFICATE-----\n".to_string(),
+                        "g" => "some text without any marker\n".to_string(),
+                        n => n.parse::<usize>().ok().and_then(|i| a.certs.get(i)).map(|c| c.pem.clone()).unwrap_or_default(),
+                    }
+                };
+                let per = if leaf % 2 == 1 { 2 } else { 1 };
+                let entries: Vec<String> = toks.chunks(per).map(|c| c.iter().map(|t| block(t)).collect::<Vec<_>>().join("\n")).collect();
+                let scratch = Impl::new();
+                let add = AddCertificate {
+                    address: addr,
+                    certificate: CertificateAndKey {
+                        certificate: leaf_asset.pem.clone(),
+                        certificate_chain: entries,
+                        key: leaf_asset.key.clone(),
+                        versions: vec![],
+                        names: vec!["chain.test".into()],
+                    },
+                    expired_at: Some(1),
+                };
+                let res = catch_unwind(AssertUnwindSafe(|| {
+                    let out = scratch.res.0.lock().unwrap_or_else(|p| p.into_inner()).add_certificate(&add);
+                    match out {
+                        Err(_) => None,
+                        Ok(_) => handshake_opts(&scratch.cfg, "chain.test", true),
+                    }
+                }));
+                match res {
+                    Err(e) => {
+                        r.oracle.push(("resolver-panics".into(), format!("`{op}`: {}", panic_text(e))));
+                        r.out.push("panic".into());
+                    }
+                    Ok(None) => {
+                        r.tags.push("chain:refused".into());
+                        if !toks.contains(&"x") {
+                            r.oracle.push(("chain-refused".into(), format!("`{op}`: every block parses but the certificate is refused")));
+                        }
+                        r.out.push("err".into());
+                    }
+                    Ok(Some((Shake::NoCert(e), _))) => {
+                        r.oracle.push(("handshake-fails".into(), format!("`{op}`: {e}")));
+                        r.out.push("chain ?".into());
+                    }
+                    Ok(Some((Shake::Cert(der), inter))) => {
+                        let idof = |d: &Vec<u8>| a.certs.iter().position(|c| &c.der == d).map(|i| i.to_string()).unwrap_or_else(|| "?".into());
+                        let mut ids = vec![idof(&der)];
+                        ids.extend(inter.iter().map(idof));
+                        // the property: the certificate presented is the loaded leaf; then the supplied
+                        // chain in order, the leaf not repeated
+                        let want: Vec<String> = std::iter::once(leaf.to_string())
+                            .chain(toks.iter().filter(|t| **t != "g" && **t != "x" && **t != w[1]).map(|t| t.to_string()))
+                            .collect();
+                        if ids[0] != leaf.to_string() {
+                            r.oracle.push(("chain-leaf-not-first".into(), format!("`{op}`: presented {ids:?}")));
+                        } else if ids != want {
+                            r.oracle.push(("chain-wrong".into(), format!("`{op}`: presented {ids:?}, expected {want:?}")));
+                        }
+                        if ids.len() > 1 {
+                            r.tags.push("chain:intermediates".into());
+                        }
+                        if toks.contains(&w[1]) {
+                            r.tags.push("chain:leaf-deduplicated".into());
+                        }
+                        r.out.push(format!("chain {}", ids.join(" ")));
+                    }
+                }
+                continue;
+            }
+            if w[0] == "nosni" {
+                r.tags.push("op:nosni".into());
+                if dead {
+                    r.out.push("panic".into());
+                    continue;
+                }
+                // a ClientHello without server_name: resolve answers None, the handshake fails
+                let probe = grid.iter().find(|n| handshakeable(n)).map(|n| String::from_utf8_lossy(n).to_string()).unwrap_or_else(|| "www.example.org".into());
+                match catch_unwind(AssertUnwindSafe(|| handshake_opts(&im.cfg, &probe, false))) {
+                    Err(e) => {
+                        r.oracle.push(("resolve-panics".into(), format!("no SNI: {}", panic_text(e))));
+                        r.out.push("panic".into());
+                    }
+                    Ok(Some((Shake::Cert(der), _))) => {
+                        let which = a.certs.iter().position(|c| c.der == der).map(|i| format!("c{i}")).unwrap_or_else(|| "D".into());
+                        r.oracle.push(("no-sni-served-certificate".into(), format!("a ClientHello without SNI was presented {which}")));
+                        r.out.push(which);
+                    }
+                    Ok(_) => r.out.push("N".into()),
+                }
                 continue;
             }
             if w[0] == "sni" {
@@ -1689,7 +1832,7 @@ fn tls_probe(addr: SocketAddr, sni: &str, request: Option<&str>) -> Result<(Vec<
 
 fn tls_probe_once(addr: SocketAddr, sni: &str, request: Option<&str>) -> Result<(Vec<u8>, Option<u16>), String> {
     let provider = Arc::new(rustls::crypto::ring::default_provider());
-    let cap = Arc::new(Capture(Mutex::new(None), provider.clone()));
+    let cap = Arc::new(Capture(Mutex::new(None), provider.clone(), Mutex::new(vec![])));
     let mut ccfg = rustls::ClientConfig::builder_with_provider(provider)
         .with_safe_default_protocol_versions()
         .map_err(|e| e.to_string())?
